@@ -324,3 +324,26 @@ def _spec_match(spec, m):
         "affinity": m.get("affinity", 0.0),
         "score": m.get("score"),
     }
+
+
+def spec_is_valid(spec) -> list:
+    """Broken invariants of a whole world spec (reference; [] when valid)."""
+    broken = []
+    for i in range(len(spec.get("clips", []))):
+        broken += check(from_spec_target(spec, {"cls": "Clip", "index": i}))
+    for i in range(len(spec.get("matches", []))):
+        broken += check(from_spec_target(spec, {"cls": "Match", "index": i}))
+    for i in range(len(spec.get("clip_evaluations", []))):
+        broken += check(
+            from_spec_target(spec, {"cls": "ClipEvaluation", "index": i})
+        )
+    for pool, cls in (("se_predictions", "SoundEventPrediction"),
+                      ("seq_predictions", "SequencePrediction")):
+        for i, p_ in enumerate(spec.get(pool, [])):
+            broken += check(from_spec_target(spec, {"cls": cls, "index": i}))
+            for pos in range(len(p_.get("tags", []))):
+                broken += check(from_spec_target(
+                    spec, {"cls": "PredictedTag", "index": i, "pool": pool,
+                           "pos": pos}))
+    broken += check(from_spec_target(spec, {"cls": "AnnotationProject"}))
+    return broken
